@@ -630,15 +630,17 @@ def structure_signature(body):
     return {"for_loops": len(loops_in(body)), "while_loops": len(natural_loops(body)) - len(loops_in(body)), "element_stores": stores, "calls": dict(sorted(calls.items()))}
 
 
-def siblings_agree(ctx, rule, name_a, name_b, what):
+def siblings_agree(ctx, rule, name_a, name_b, what, ignore=(), ignore_stores=False):
     a, b = ctx.body(name_a), ctx.body(name_b)
     ctx.scan([a, b])
     sa, sb = structure_signature(a), structure_signature(b)
     diff = []
-    for k in ("for_loops", "while_loops", "element_stores"):
+    for k in ("for_loops", "while_loops") + (() if ignore_stores else ("element_stores",)):
         if sa[k] != sb[k]:
             diff.append("%s: %d vs %d" % (k, sa[k], sb[k]))
     for c in sorted(set(sa["calls"]) | set(sb["calls"])):
+        if c in ignore:
+            continue
         if sa["calls"].get(c, 0) != sb["calls"].get(c, 0):
             diff.append("%s: %d vs %d" % (c, sa["calls"].get(c, 0), sb["calls"].get(c, 0)))
     ctx.ob(rule, name_a + " ~ " + name_b.split("::")[-1], what, "ok" if not diff else "violation",
